@@ -70,6 +70,10 @@ func verifDrainEvents(n *Node) (opens, closes, frames, others int, closeErr erro
 }
 
 func verifStartedChannel(n *Node, t *verifBlockRWC) *Channel {
+	return verifStartedChannelRWC(n, t)
+}
+
+func verifStartedChannelRWC(n *Node, t io.ReadWriteCloser) *Channel {
 	ch := &Channel{node: n, rwc: t}
 	if err := ch.initialize(); err != nil {
 		panic(err)
@@ -86,14 +90,28 @@ func verifStartedChannel(n *Node, t *verifBlockRWC) *Channel {
 // L1 (C13, second sentence): a write on a channel fails (transport error at the first Write, or an item that cannot be
 // encoded for the link). Afterwards the channel is either closed and reported by a close event, or it keeps
 // delivering later valid writes. One schedule: every goroutine runs until it blocks, round-robin, to quiescence.
-// cause 0: transport Write error; 1: raw message with an id outside the dialect.
-func verifHarness_C13_failed_write(cause int, k int) {
+// cause 0: transport Write error on a message; 1: raw message with an id outside the dialect; 2: transport Write error
+// on a forwarded frame. wrap 1: the transport is handed over behind a wrapper whose Close does nothing, as the custom
+// and UDP broadcast endpoints do.
+func verifHarness_C13_failed_write(cause int, k int, wrap int) {
 	n := verifBareNode(V2, 1, 1)
 	t := &verifBlockRWC{}
-	if cause == 0 {
+	perm := cause >= 3 // 3: frame, 4: message, on a transport whose write side fails for good from call k on
+	if perm {
+		t.SetFailFrom(k)
+		cause -= 1
+		if cause == 3 {
+			cause = 0
+		}
+	} else if cause != 1 {
 		t.SetFailAt(k)
 	}
-	ch := verifStartedChannel(n, t)
+	var ch *Channel
+	if wrap == 1 {
+		ch = verifStartedChannelRWC(n, &removeCloser{t})
+	} else {
+		ch = verifStartedChannel(n, t)
+	}
 	verifRunGoroutines(func() { ch.run() })
 	opens, closes, _, _, _ := verifDrainEvents(n)
 	verifAssert(opens == 1 && closes == 0, "C13/L1/open-event-first")
@@ -104,6 +122,10 @@ func verifHarness_C13_failed_write(cause int, k int) {
 	}
 	verifAssert(t.Calls() == k-1, "C13/L1/earlier-writes-delivered")
 	var first interface{} = &message.MessageRaw{ID: 202, Payload: verifNondetBytes(5)}
+	if cause == 2 {
+		fr, _ := verifForwardFrame(true)
+		first = fr
+	}
 	if cause == 1 {
 		id := verifNondetU32()
 		verifAssume(id > 300 && id < 1<<24)
@@ -120,7 +142,7 @@ func verifHarness_C13_failed_write(cause int, k int) {
 	delivered := len(t.Buf()) > before
 	verifAssert(closes <= 1, "C13/L1/at-most-one-close-event")
 	verifAssert(closes == 1 || delivered, "C13/L1/after-a-failed-write-closed-and-reported-or-still-delivering")
-	if closes == 1 {
+	if closes == 1 && wrap == 0 {
 		verifAssert(t.closed >= 1, "C13/L1/reported-close-closes-the-transport")
 	}
 	verifReach("C13/L1")
